@@ -173,6 +173,15 @@ Proof.
   intros lower LS. split; [exact (name_roundtrip lower LS) | split; [exact (key_roundtrip lower LS) | exact (chord_roundtrip lower LS)]].
 Qed.
 
+(* the parsers' vocabulary is the source's: the model's tables of key names and modifier names ARE the
+   literal match arms of KeyName::from_str / Key::from_str as re-extracted from src/keys.rs on every run
+   (no arm dropped), and every value a name arm returns is one that prints to a string the parser accepts
+   (so C18_parse_roundtrip is re-proved against the code's current vocabulary: an alias such as
+   "plus" => Char('+'), whose value prints quoted, breaks this theorem) *)
+Theorem C18_parser_vocabulary_is_source :
+  tables_complete = true /\ Forall (fun p => name_canon (snd p)) named_keys.
+Proof. exact (conj tables_are_complete named_keys_canon). Qed.
+
 (* the order model is the source's: every KeyName constructor of the model sits at the position its
    variant has in `pub enum KeyName` of src/keys.rs (what the derived Ord compares first), and the
    modifier masks of the parse / print tables are the source's KeyMod constants; both re-extracted from
